@@ -163,7 +163,7 @@ export async function run(ctx) {
     }
   }
 
-  const nProgs = ctx.share(1600, 40000);
+  const nProgs = ctx.share(8000, 40000);
   const typeStats = new Map(); // typeKey -> {acc, rej, classes:Set}
   for await (const item of corpus(ctx, {
     label: "C01",
